@@ -77,6 +77,9 @@ type IsoOp struct {
 	Polluter int  `json:"polluter"` // index, or -1 for the probe
 	G        int  `json:"g"`        // goroutine (concurrent mode)
 	Fresh    bool `json:"fresh,omitempty"`
+	// Props: which step properties the caller passes: 0 the full set,
+	// 1 an empty map, 2 nil (what Walk(..., nil) and cmd/sheensio do)
+	Props int `json:"props,omitempty"`
 }
 
 type IsoCase struct {
@@ -101,10 +104,11 @@ func genIso(t *rapid.T) IsoCase {
 		if c.Concurrent {
 			op.G = rapid.IntRange(0, c.Goroutines-1).Draw(t, fmt.Sprintf("g%d", i))
 		}
+		op.Props = rapid.SampledFrom([]int{0, 0, 0, 1, 2}).Draw(t, fmt.Sprintf("props%d", i))
 		c.Ops = append(c.Ops, op)
 	}
 	// always end with a probe
-	c.Ops = append(c.Ops, IsoOp{Polluter: -1})
+	c.Ops = append(c.Ops, IsoOp{Polluter: -1, Props: rapid.SampledFrom([]int{0, 0, 1, 2}).Draw(t, "propsLast")})
 	return c
 }
 
@@ -113,6 +117,16 @@ func inputBindings() match.Bindings {
 		"d":     map[string]interface{}{"e": map[string]interface{}{"f": []interface{}{}}},
 		"items": []interface{}{map[string]interface{}{"qty": 1.0}, map[string]interface{}{"qty": 2.0, "tags": []interface{}{"t"}}},
 		"grid":  []interface{}{[]interface{}{1.0, 2.0}, []interface{}{3.0}}}
+}
+
+func inputPropsMode(mode int) core.StepProps {
+	switch mode {
+	case 1:
+		return core.StepProps{}
+	case 2:
+		return nil
+	}
+	return inputProps()
 }
 
 func inputProps() core.StepProps {
@@ -127,7 +141,7 @@ var (
 	isoInterp   *ecmascript.Interpreter
 	isoCompiled []interface{}
 	isoProbe    interface{}
-	isoBaseline string
+	isoBaseline [3]string // per props mode
 	isoErr      error
 )
 
@@ -149,13 +163,15 @@ func isoSetup() {
 			return
 		}
 		// baseline: the probe on a fresh interpreter, nothing run before
-		fresh := ecmascript.NewInterpreter()
-		exe, err := fresh.Exec(ctx, inputBindings(), inputProps(), probeSrc, nil)
-		if err != nil {
-			isoErr = fmt.Errorf("probe fails on a fresh interpreter: %v", err)
-			return
+		for mode := 0; mode < 3; mode++ {
+			fresh := ecmascript.NewInterpreter()
+			exe, err := fresh.Exec(ctx, inputBindings(), inputPropsMode(mode), probeSrc, nil)
+			if err != nil {
+				isoErr = fmt.Errorf("probe fails on a fresh interpreter: %v", err)
+				return
+			}
+			isoBaseline[mode] = jsongen.Canon(map[string]interface{}(exe.Bs))
 		}
-		isoBaseline = jsongen.Canon(map[string]interface{}(exe.Bs))
 	})
 }
 
@@ -169,7 +185,7 @@ func checkIso(c IsoCase) (v ev.Verdict) {
 	polluted := map[string]bool{}
 	probesAfter := 0
 	runOp := func(op IsoOp) string {
-		bs, props := inputBindings(), inputProps()
+		bs, props := inputBindings(), inputPropsMode(op.Props)
 		sb := jsongen.Snap(map[string]interface{}(bs))
 		sp := jsongen.Snap(map[string]interface{}(props))
 		var exe *core.Execution
@@ -192,8 +208,8 @@ func checkIso(c IsoCase) (v ev.Verdict) {
 				return fmt.Sprintf("the probe failed after other scripts ran: %v", err)
 			}
 			got := jsongen.Canon(map[string]interface{}(exe.Bs))
-			if got != isoBaseline {
-				return fmt.Sprintf("the probe sees the effects of other executions:\n got      %s\n baseline %s", got, isoBaseline)
+			if got != isoBaseline[op.Props] {
+				return fmt.Sprintf("the probe (props mode %d) sees the effects of other executions:\n got      %s\n baseline %s", op.Props, got, isoBaseline[op.Props])
 			}
 		}
 		return ""
